@@ -19,9 +19,9 @@ EXT = {"plain": "dkvp", "header": "csv", "bracket": "json"}
 OFLAG = {"plain": [], "header": ["--ocsv"], "bracket": ["--ojson"]}
 
 
-def consts(targets, k, kind, mode, pre, maxw):
-    return ("CONSTANTS\n  Targets = {%s}\n  K = %d\n  Kind = \"%s\"\n  Mode = \"%s\"\n  Pre = {%s}\n  MaxWrites = %d\n" % (
-        ", ".join(str(t) for t in targets), k, kind, mode, ", ".join(str(t) for t in pre), maxw))
+def consts(targets, k, kind, mode, pre, maxw, suspend=True):
+    return ("CONSTANTS\n  Targets = {%s}\n  K = %d\n  Kind = \"%s\"\n  Mode = \"%s\"\n  Pre = {%s}\n  MaxWrites = %d\n  Suspend = %s\n" % (
+        ", ".join(str(t) for t in targets), k, kind, mode, ", ".join(str(t) for t in pre), maxw, "TRUE" if suspend else "FALSE"))
 
 
 def tname(t, j):
@@ -271,8 +271,17 @@ def run(tier, seed):
             if r.violated != "Refines":
                 raise vlib.Inconclusive("FanOut model violates %s" % r.violated)
             model_breaks.add((kind, k))
-    # expectation on the model: only header/bracket documents, and only when eviction is possible
     cov["model_refinement_fails_for"] = sorted(list(x) for x in model_breaks)
+    # self-test of the design check: the pinned tree's design (eviction closes the handler, the re-open starts a fresh
+    # record writer) must still be refuted by TLC for documents with a header or brackets
+    st_design = []
+    for kind in ("header", "bracket"):
+        cfg = "SPECIFICATION Spec\n" + consts(targets, 1, kind, "write", [], 5, suspend=False) + "INVARIANTS Refines\nCHECK_DEADLOCK TRUE\n"
+        r = vlib.tlc("FanOut", cfg="gen.cfg", extra_files={"gen.cfg": cfg}, workers=2, timeout=3000)
+        st_design.append({"kind": kind, "Suspend": False, "result": r.violated or r.error or "no error"})
+        if r.violated != "Refines":
+            raise vlib.Inconclusive("design self-test: the close-on-eviction design was not refuted for %s: %r" % (kind, r.violated or r.error))
+    cov["design_selftest"] = st_design
 
     # ---- 2. every history, on the real binary ------------------------------------------------------
     maxw_evict = 5 if thorough else 4
@@ -394,7 +403,7 @@ def run(tier, seed):
         text = "".join(json.dumps({"ev": x["ev"]}) + "\n" for x in tr)
         nt = 3 * REAL_CAP
         cfg = ("INIT TInit\nNEXT TNext\nCONSTANTS\n  Targets <- TraceTargets\n  K = %d\n  Kind = \"plain\"\n  Mode = \"write\"\n"
-               "  Pre = {}\n  MaxWrites = 0\n  TraceFile = \"traces.ndjson\"\nCONSTRAINT Track\nPOSTCONDITION Report\nCHECK_DEADLOCK FALSE\n" % REAL_CAP)
+               "  Pre = {}\n  MaxWrites = 0\n  Suspend = TRUE\n  TraceFile = \"traces.ndjson\"\nCONSTRAINT Track\nPOSTCONDITION Report\nCHECK_DEADLOCK FALSE\n" % REAL_CAP)
         mod = ("---- MODULE FanOutTraceMC ----\nEXTENDS FanOutTrace\nTraceTargets == 1..%d\n====\n" % nt)
         # write-mode traces only (the append flag of a first open depends on the mode)
         wr = [x for x in tr if runs[x["_i"]][0][1] == "write"]
